@@ -197,10 +197,11 @@ def _check(r, prefix):
     return viols
 
 
-def run_part(ctx):
+def run_part(ctx, pairs=None):
     global _PAIR
     bound = ctx.pick(2, 3)
-    pairs = PAIRS_THOROUGH if ctx.thorough else PAIRS_QUICK
+    if pairs is None:
+        pairs = PAIRS_THOROUGH if ctx.thorough else PAIRS_QUICK
     traced = _traced()
     if not ctx.thorough:
         # quick tier: scheduling points only on lines that touch state shared between threads
